@@ -6,7 +6,9 @@ import (
 	"strings"
 
 	"github.com/pip-services3-gox/pip-services3-expressions-gox/calculator"
+	"github.com/pip-services3-gox/pip-services3-expressions-gox/calculator/functions"
 	"github.com/pip-services3-gox/pip-services3-expressions-gox/calculator/parsers"
+	ctok "github.com/pip-services3-gox/pip-services3-expressions-gox/calculator/tokenizers"
 	rio "github.com/pip-services3-gox/pip-services3-expressions-gox/io"
 	"github.com/pip-services3-gox/pip-services3-expressions-gox/mustache"
 	mparsers "github.com/pip-services3-gox/pip-services3-expressions-gox/mustache/parsers"
@@ -79,6 +81,28 @@ var c05Map = map[string]string{"a": "A", "B": "", "name": "World"}
 func (in *c05Instance) observe(input string, abort int) (out string) {
 	p := mon.Try(func() {
 		switch {
+		case in.tok != nil && abort == 5:
+			// the same scanner object, reset and handed over a second time
+			sc := rio.NewStringScanner(input)
+			pass := func() string {
+				in.tok.SetReader(sc)
+				var b strings.Builder
+				for n := 0; n < len(input)+5; n++ {
+					t := in.tok.NextToken()
+					if t == nil {
+						break
+					}
+					b.WriteString(tok{t.Type(), t.Value(), t.Line(), t.Column()}.String() + " ")
+				}
+				return b.String()
+			}
+			first := pass()
+			sc.Reset()
+			second := pass()
+			out = first
+			if second != first {
+				out = "SECOND PASS OVER THE SAME RESET SCANNER DIFFERS: " + first + " | " + second
+			}
 		case in.tok != nil:
 			if abort > 0 {
 				// aborted iteration: read only a few tokens, with has-next queries in between
@@ -103,6 +127,15 @@ func (in *c05Instance) observe(input string, abort int) (out string) {
 			if err != nil {
 				out = "err=" + errCode(err) + ": " + err.Error()
 			}
+		case in.ec != nil && abort == 4:
+			// the token API: the same input handed over as a token list
+			tk := ctok.NewExpressionTokenizer()
+			setOptions(tk, optSkipComments|optSkipEof|optDecodeStrings)
+			in.ec.SetOriginalTokens(tk.TokenizeBuffer(strings.Trim(input, " \t\r\n")))
+			var r *variants.Variant
+			var err error
+			r, err = in.ec.EvaluateUsingVariables(c05Env.collection())
+			out = fmt.Sprintf("tokens: program=%v value=%v evalerr=%v", gotProgram(in.ec.ResultTokens()), snap(r), err)
 		case in.ec != nil:
 			err := in.ec.SetExpression(input)
 			if err != nil {
@@ -160,6 +193,10 @@ func c05Exec(c *mon.Case) {
 		}
 		got := used.observe(in, abort)
 		want := newC05Instance(kind).observe(in, abort)
+		if strings.HasPrefix(want, "SECOND PASS") {
+			c.Failf("tok instance: a second pass over the same reset scanner differs from the first", "component=%s input=%q\n%s", kind, in, want)
+			return
+		}
 		if got != want {
 			cls := ""
 			if strings.HasPrefix(kind, "tok:") {
@@ -271,6 +308,10 @@ func buildC05(cfg *mon.Config) []*mon.Sub {
 					ab[k] = '0'
 					if strings.HasPrefix(cp.kind, "tok:") && r.Chance(1, 4) {
 						ab[k] = byte('1' + r.Intn(3))
+					} else if strings.HasPrefix(cp.kind, "tok:") && r.Chance(1, 8) {
+						ab[k] = '5'
+					} else if cp.kind == "expression-calculator" && r.Chance(1, 3) {
+						ab[k] = '4'
 					}
 				}
 				emit(cp.kind + "\x00" + string(ab) + "\x00" + strings.Join(in, "\x01"))
@@ -300,6 +341,77 @@ func buildC05(cfg *mon.Config) []*mon.Sub {
 			}
 		},
 		Exec: c05HasNextExec,
+	})
+	subs = append(subs, &mon.Sub{
+		Name: "function-collections-interleaved", Rule: "one compiled expression calling f and g is evaluated with function collections A, B, A, with the default functions (f missing: an error naming it), after adding f to the default functions, and after removing it again; every result must be the value computed from the collection actually passed (a per-instance cache keyed by name would show); enumerated over 6 expressions x 2 orders",
+		Exhaustive: true, DistinctByGen: true, Floor: 5,
+		Gen: func(emit func(string)) {
+			for _, e := range []string{"f(2) + g(3)", "f(g(2))", "g(f(1), f(2))", "f(1) * 10 + f(2)", "Sum(f(1), g(1), 1)", "If(f(0) > g(0), f(5), g(5))"} {
+				emit("AB\x00" + e)
+				emit("BA\x00" + e)
+			}
+		},
+		Exec: func(c *mon.Case) {
+			c.NonTrivial()
+			parts := strings.SplitN(c.Payload, "\x00", 2)
+			mk := func(fAdd, gMul int) *functions.FunctionCollection {
+				fc := functions.NewDefaultFunctionCollection().FunctionCollection
+				fc.Add(functions.NewDelegatedFunction("f", func(p []*variants.Variant, o variants.IVariantOperations) (*variants.Variant, error) {
+					return variants.VariantFromInteger(p[0].AsInteger() + fAdd), nil
+				}))
+				fc.Add(functions.NewDelegatedFunction("g", func(p []*variants.Variant, o variants.IVariantOperations) (*variants.Variant, error) {
+					return variants.VariantFromInteger(p[0].AsInteger() * gMul), nil
+				}))
+				return fc
+			}
+			colls := map[byte]*functions.FunctionCollection{'A': mk(1, 2), 'B': mk(100, 7)}
+			eval := func(calc *calculator.ExpressionCalculator, fc functions.IFunctionCollection) string {
+				var r *variants.Variant
+				var err error
+				if pn := mon.Try(func() { r, err = calc.EvaluateUsingVariablesAndFunctions(nil, fc) }); pn != nil {
+					return "PANIC " + pn.Sig()
+				}
+				if err != nil {
+					return "error " + errCode(err) + " " + err.Error()
+				}
+				return snap(r).String()
+			}
+			used := calculator.NewExpressionCalculator()
+			if err := used.SetExpression(parts[1]); err != nil {
+				c.Failf("expression rejected", "%q: %v", parts[1], err)
+				return
+			}
+			steps := []byte{parts[0][0], parts[0][1], parts[0][0], 'D', '+', 'D', '-', 'D', parts[0][1]}
+			for i, st := range steps {
+				fresh := calculator.NewExpressionCalculator()
+				fresh.SetExpression(parts[1])
+				var got, want string
+				switch st {
+				case 'A', 'B':
+					got, want = eval(used, colls[st]), eval(fresh, colls[st])
+				case '+':
+					f := functions.NewDelegatedFunction("f", func(p []*variants.Variant, o variants.IVariantOperations) (*variants.Variant, error) {
+						return variants.VariantFromInteger(-5), nil
+					})
+					used.DefaultFunctions().Add(f)
+					continue
+				case '-':
+					used.DefaultFunctions().RemoveByName("f")
+					continue
+				case 'D':
+					for _, fn := range used.DefaultFunctions().GetAll() { // the fresh one gets the same default table
+						if fresh.DefaultFunctions().FindByName(fn.Name()) == nil {
+							fresh.DefaultFunctions().Add(fn)
+						}
+					}
+					got, want = eval(used, nil), eval(fresh, nil)
+				}
+				if got != want {
+					c.Failf("expression-calculator instance: result depends on the function collections used earlier", "expression=%q step %d (%c of %q): fresh calculator %s, reused calculator %s", parts[1], i, st, steps, want, got)
+					return
+				}
+			}
+		},
 	})
 	return subs
 }
